@@ -35,6 +35,12 @@ def readVarUint : Bytes → Option (Nat × Bytes)
     else if b = 0xff then (takeN 8 rest).map fun (x, r) => (leVal x, r)
     else some (b.toNat, rest)
 
+/-- `ReadVarBytes(max)` (binaryReader.go:172-186): the count is compared with the cap before the buffer is made. -/
+def readVarBytes (max : Nat) (b : Bytes) : Option (Bytes × Bytes) :=
+  match readVarUint b with
+  | none => none
+  | some (n, r) => if n > max then none else takeN n r
+
 /-- `io.GetVarSize` for integers (size.go). -/
 def varUintSize (v : Nat) : Nat :=
   if v < 0xfd then 1 else if v ≤ 0xFFFF then 3 else if v ≤ 0xFFFFFFFF then 5 else 9
